@@ -151,7 +151,7 @@ EXPORT char *_gets_s_chk(char *restrict dest, rsize_t dmax,
     if (likely(ret)) {
         rsize_t len = (rsize_t)strnlen(dest, dmax);
         if (len > 0 && dest[len - 1] == '\n') {
-            dest[len - 1] = 0;
+            dest[--len] = 0;
         } else if (len == (rsize_t)(dmax - 1)) {
             /* dest is full: only a newline or the end of the input may
                follow, any other character does not fit */
@@ -161,6 +161,9 @@ EXPORT char *_gets_s_chk(char *restrict dest, rsize_t dmax,
                 goto nospc;
             }
         }
+#ifdef SAFECLIB_STR_NULL_SLACK
+        memset(&dest[len], 0, dmax - len);
+#endif
     } else {
         *dest = '\0'; /* end-of-file or read error: no string was read */
         if (!feof(stdin) && errno == 0) { /* closed? */
